@@ -597,6 +597,8 @@ impl AutosarModel {
                 let _ = self.root_element().remove_from_file(file);
                 // self.unmerge_file(&file.downgrade());
             }
+            // the removed file no longer belongs to this model; it must not be usable in add_to_file() etc. any more
+            file.0.write().model = WeakAutosarModel(Weak::new());
         }
     }
 
